@@ -148,7 +148,7 @@ theorem mapInsert_append (kt : Ty) (kv : Val) (acc : List Val)
   | cons e es ih =>
     have he := h e (by simp)
     simp only [keyOrdered] at he
-    simp [mapInsert, he.1, he.2, ih (fun x hx => h x (by simp [hx]))]
+    simp [mapInsert, he.1, he.2.1, ih (fun x hx => h x (by simp [hx]))]
 
 theorem mapFromList_aux (kt : Ty) (kvs acc : List Val)
     (hk : kvs.Pairwise (keyOrdered kt)) (ha : ∀ e ∈ acc, ∀ x ∈ kvs, keyOrdered kt e x) :
@@ -451,7 +451,7 @@ theorem wfb_sound : ∀ (ty : Ty) (v : Val), wfb ty v = true → WF ty v
         refine this.imp ?_
         intro a b hab
         simp only [Bool.and_eq_true, Bool.not_eq_true'] at hab
-        exact hab
+        exact ⟨hab.1.1.1, hab.1.1.2, hab.1.2, hab.2⟩
   | .struct fs, v, h => by
     cases v <;> simp [wfb] at h
     simp only [WF]; exact ⟨_, rfl, wfbs_sound fs _ h⟩
